@@ -189,8 +189,9 @@ func runCodec(cfg *Cfg) {
 		en := enumNums(t)
 		boundaryPass(out, t, cfg.Tier, modelOK)
 		reusePass(out, t, r, cfg.Tier, en)
+		bigMapPass(out, t, modelOK)
 		for c := 0; c < perTarget; c++ {
-			g := &vval.GenOpts{MaxDepth: 1 + r.Intn(4), Unknown: r.Chance(50), NilJunk: r.Chance(12), BadUTF8: r.Chance(8), BigMaps: r.Chance(10), EnumNums: en}
+			g := &vval.GenOpts{MaxDepth: 1 + r.Intn(4), Unknown: r.Chance(50), NilJunk: r.Chance(12), BadUTF8: r.Chance(8), BigMaps: r.Chance(10), BigBlobs: r.Chance(8), EnumNums: en}
 			v := g.Message(r, t.S, 0, 0)
 			vs := v.String()
 			nontrivial := len(vs) > 4*len(v.Kids)+8
@@ -547,5 +548,74 @@ func reusePass(out *Out, t *Target, r *vschema.Rand, tier string, en []int32) {
 			out.Violate("C05", "reuse-marshal", "deterministic bytes depend on what the object held before: "+hexs(bs)+" vs "+hexs(fbs), replay)
 			out.Violate("C02", "reuse-marshal", "deterministic bytes of an object changed in place differ from those of the value: "+hexs(bs)+" vs "+hexs(fbs), replay)
 		}
+	}
+}
+
+// bigMapPass: every map field of the type filled with MANY entries (more than any small-size fast path: 17, 33,
+// 40), and — where map values are messages that have map fields themselves — the nested maps filled as well with a
+// different count, so that a nested deterministic marshal of a big map runs while the enclosing one is still
+// iterating over its own sorted keys. Goes through the whole codecCase oracle set (reference bytes, repetition).
+func bigMapPass(out *Out, t *Target, modelOK bool) {
+	hasMap := false
+	for _, f := range t.S.Msgs[0].Fields {
+		if f.Shape == vschema.Map {
+			hasMap = true
+		}
+	}
+	if !hasMap {
+		return
+	}
+	keyVal := func(k vschema.Kind, i int) *vval.Val {
+		switch k {
+		case vschema.String:
+			return vval.VBlob(false, []byte(fmt.Sprintf("key-%03d", (i*37)%1000)))
+		case vschema.Bool:
+			return vval.VBits(uint64(i % 2))
+		}
+		n := uint64(i*7919 + 1)
+		if k.Width() == 32 {
+			n &= 0x7FFFFFFF
+		}
+		return vval.VBits(n)
+	}
+	var build func(mi, outer, inner, depth int) *vval.Val
+	build = func(mi, outer, inner, depth int) *vval.Val {
+		v := vval.Empty(t.S, mi)
+		for j, f := range t.S.Msgs[mi].Fields {
+			if f.Shape != vschema.Map || f.Extern != "" {
+				continue
+			}
+			n := outer
+			if f.Key == vschema.Bool && n > 2 {
+				n = 2
+			}
+			var es []*vval.Val
+			for i := 0; i < n; i++ {
+				var val *vval.Val
+				if f.IsMsg {
+					if depth > 0 {
+						val = build(f.Msg, inner, outer, depth-1)
+					} else {
+						val = vval.Empty(t.S, f.Msg)
+					}
+				} else if f.Kind.IsBlob() {
+					val = vval.VBlob(f.Kind == vschema.Bytes, []byte{byte('a' + i%26)})
+				} else {
+					val = vval.VBits(uint64(i % 2))
+				}
+				es = append(es, vval.VEntry(keyVal(f.Key, i), val))
+			}
+			v.Kids[j] = vval.VMap(true, es)
+		}
+		return v
+	}
+	for _, sz := range [][2]int{{17, 20}, {33, 35}, {40, 17}} {
+		v := build(0, sz[0], sz[1], 1)
+		vs := v.String()
+		out.Case("bigmap:"+t.Full+fmt.Sprint(sz), true)
+		out.Count("big_map_cases")
+		// twice: state left behind by the first marshal (a pooled buffer that grew) must not change the second
+		codecCase(out, t, v, vs, false, true, modelOK)
+		codecCase(out, t, v, vs, false, true, modelOK)
 	}
 }
